@@ -457,6 +457,20 @@ def initBuiltins : M Unit := do
     forEach (fun row => addBuiltinOption { name := row.1, sub := none, machine := m } row) Tables.builtinPerMachine)
     [Machine.build, Machine.host]
 
+/-- `init_builtins()` on the builtin table as `CoreData.builtin_options_libdir_cross_fixup` leaves it for a cross
+build (coredata.py: `BUILTIN_OPTIONS['libdir'].default = 'lib'` when there are cross files) -/
+def initBuiltinsCross : M Unit := do
+  forEach (fun row => addBuiltinOption { name := row.1, sub := none, machine := .host } row) Tables.builtinOptionsCross
+  forEach (fun m =>
+    forEach (fun row => addBuiltinOption { name := row.1, sub := none, machine := m } row) Tables.builtinPerMachine)
+    [Machine.build, Machine.host]
+
+/-- the option part of `CoreData.__init__` (coredata.py:233-260): `OptionStore(is_cross_build())` exists, then
+`builtin_options_libdir_cross_fixup()`, then `init_builtins()` -/
+def coreDataInit : M Unit := do
+  let s ← get
+  if s.isCross then initBuiltinsCross else initBuiltins
+
 /-! ## `initialize_from_top_level_project_call` (options.py:1235-1314) -/
 
 /-- `prefix_split_options` -/
